@@ -1,4 +1,6 @@
 import TantivyModel.Proofs.GrammarFold
+import TantivyModel.Proofs.GrammarSimplify
+import TantivyModel.Proofs.GrammarChars
 /-!
 # C16 — The query parser is total and implements its documented grammar
 
@@ -162,13 +164,52 @@ theorem C16_group_assoc (m : Mode) (res : L → LAst T) (v : T → Bool) (a b c 
 
 /-! ## `rewrite_ast` -/
 
-/- Full statement (not proved yet, kept visible):
-   `theorem C16_rewrite_preserves_sem (m) (res) (v) (t : Ast L) (h : safeWith m false t = true) :
-      semAst m res v (rewrite t) = semAst m res v t`
-   (dedup of identical clauses and unwrapping of unmarked singleton groups whose inner occur is
-   absent or the mode's default keep the meaning). `safeWith` (Model/Grammar/Safe.lean) is the
-   executable side condition; the harness evaluates it on every semantic mismatch to attribute
-   it. Unconditionally the statement is false: -/
+/-- `rewrite_ast` keeps the meaning of every tree that satisfies the side condition `safeWith`
+    (Model/Grammar/Safe.lean): removing duplicate clauses never matters, and unwrapping an unmarked
+    singleton group `(None, Clause [(o, x)])` to `(o, x)` is harmless when `o` is absent or the
+    mode's default occur. (The `NOT` normalisation — `o = MustNot` — deliberately changes the
+    meaning, see `C16_rewrite_not_is_minus`; other explicit occurs are the defect witnessed by
+    `C16_rewrite_preserves_sem_counterexample`.) -/
+theorem C16_rewrite_preserves_sem [DecidableEq L] (m : Mode) (res : L → LAst T) (v : T → Bool)
+    (t : Ast L) (h : safeWith m false t = true) :
+    semAst m res v (rewrite t) = semAst m res v t :=
+  (rewrite_ok m res v t h).1
+
+example : safeWith .orDefault false
+    (.clause [(none, .clause [(none, .leaf 1), (none, .leaf 1)]), (none, .leaf 2), (none, (.leaf 2 : Ast Nat))]) = true
+    ∧ rewrite (.clause [(none, .clause [(none, .leaf 1), (none, .leaf 1)]), (none, .leaf 2), (none, (.leaf 2 : Ast Nat))])
+      = .clause [(none, .leaf 1), (none, .leaf 2)] := ⟨rfl, rfl⟩
+
+/-- `a NOT b` is read as `a -b`: the unmarked pure-negative group is unwrapped into a MUST_NOT
+    clause (pinned by `test_not_queries_are_consistent`) -/
+theorem C16_rewrite_not_is_minus [DecidableEq L] (a b : L) :
+    rewrite (.clause [(none, .leaf a), (none, (Ast.leaf b).unary .mustNot)])
+      = .clause [(none, .leaf a), (some .mustNot, .leaf b)] := by
+  simp [rewrite, rewriteL, dedup, dedupAux, Ast.entryBeq, Ast.beq, unwrapEntry, Ast.unary]
+
+/-- `LogicalAst::simplify` (applied by the strict `parse_query` only) keeps the meaning -/
+theorem C16_simplify_preserves_sem (v : T → Bool) (t : LAst T) :
+    semL v (simplify t) = semL v t :=
+  (simplify_ok v t).1
+
+example : simplify (.clause [(.should, .clause [(.should, .leaf 1), (.should, (.leaf 2 : LAst Nat))]), (.should, .leaf 3)])
+    = .clause [(.should, .leaf 1), (.should, .leaf 2), (.should, .leaf 3)] := rfl
+
+/-- hence `QueryParser::parse_query_lenient` matches what `parse_query` matches whenever the
+    latter returns a query (model of both pipelines on the same syntax tree) -/
+theorem C16_queryparser_lenient_agrees (m : Mode) (defaults : List Nat) (v : RLeaf → Bool)
+    (a : Ast Leaf) (b : Bool) (h : strictSem m defaults v a = some b) :
+    lenientSem m defaults v a = b := by
+  unfold strictSem at h
+  split at h
+  · cases h
+  · split at h
+    · rename_i t hc
+      simp only [Option.some.injEq] at h
+      rw [← h, C16_simplify_preserves_sem]
+      simp [lenientSem, hc]
+    · cases h
+
 /-- FALSE in general: `rewrite_ast` preserves the meaning of every tree
     (`∀ m t, semAst m res v (rewrite t) = semAst m res v t`).
     Witness `(+a +a) b` in the default mode: before the rewrite `(a ∧ a) ∨ b`, after it `+a b`,
@@ -182,5 +223,118 @@ theorem C16_rewrite_preserves_sem_counterexample :
     ∧ safeWith .orDefault true t = false := by
   intro t v
   exact ⟨rfl, rfl, rfl, rfl⟩
+
+/-! ## character layer (`Model/Grammar/Chars.lean`): the strict grammar as a total Lean parser
+
+The harness compares `parseStrict` with the real `parse_query` on every generated string (printed,
+mutated, random UTF-8, edge cases): same tree, same error, same panic. -/
+section Chars
+open TantivyModel.Grammar.Chars
+
+/-- the character tables of the model are the ones in the source (regenerated on every run) -/
+theorem C16_chars_tables :
+    specialChars.map Char.toNat = Gen.GRAMMAR_SPECIAL_CHARS
+    ∧ escapeInWord.map Char.toNat = Gen.GRAMMAR_ESCAPE_IN_WORD
+    ∧ keywords.map (fun k => k.map Char.toNat) = Gen.GRAMMAR_KEYWORDS
+    ∧ Gen.GRAMMAR_SLOP_BITS = 32 := by decide
+
+/-- the model parser is total (structural recursion on fuel): every text yields a tree, an error
+    or — only without the guard in `literal` — the panic of `set_field(None)` -/
+theorem C16_chars_total (guard : Bool) (s : Str) :
+    parseStrictWith guard s = .panic ∨ parseStrictWith guard s = .error
+      ∨ ∃ t, parseStrictWith guard s = .tree t := by
+  cases h : parseStrictWith guard s with
+  | panic => exact Or.inl rfl
+  | error => exact Or.inr (Or.inl rfl)
+  | tree t => exact Or.inr (Or.inr ⟨t, rfl⟩)
+
+/-- once `literal` refuses an exists leaf without a field name (the pending fix), the strict
+    grammar has no panic left: for every text -/
+theorem C16_strict_never_panics_with_guard (s : Str) : parseStrictWith true s ≠ .panic :=
+  parseStrictWith_guarded_ne_panic s
+
+/-- without the guard `+ *` panics (the known finding), with it `+ *` is a syntax error -/
+theorem C16_strict_panic_witness :
+    pAst false 4 ['+', ' ', '*'] = .panic ∧ pAst true 4 ['+', ' ', '*'] = .fail := ⟨rfl, rfl⟩
+
+/- Full statement (not proved): `C16_print_parse : ∀ q canonical, parseStrict (print q) = .tree (rewrite (build q))`
+   for a printer of abstract queries. Proved part: the documented concrete forms below, each a
+   kernel-checked evaluation of the model parser (the general statement over all words needs
+   unfolding lemmas for the character-literal matchers, which time out in `whnf`). -/
+/-- `C16_print_parse_partial`: the documented forms parse to the documented trees -/
+theorem C16_print_parse_partial :
+    pAst false 4 ['a', 'b', 'c'] = .ok (.leaf (.literal none ['a', 'b', 'c'] .none 0 false)) []
+    ∧ pAst false 4 ['t', ':', 'a'] = .ok (.leaf (.literal (some ['t']) ['a'] .none 0 false)) []
+    ∧ pAst false 4 ['"', 'a', ' ', 'b', '"', '~', '2'] = .ok (.leaf (.literal none ['a', ' ', 'b'] .double 2 false)) []
+    ∧ pAst false 5 ['a', ' ', 'A', 'N', 'D', ' ', 'b', ' ', 'O', 'R', ' ', 'c']
+        = .ok (.clause [(some .should, .clause [(some .must, .leaf (.literal none ['a'] .none 0 false)),
+              (some .must, .leaf (.literal none ['b'] .none 0 false))]),
+            (some .should, .leaf (.literal none ['c'] .none 0 false))]) [] :=
+  ⟨rfl, rfl, rfl, rfl⟩
+
+/-- `abc` : a word -/
+example : pAst false 4 ['a', 'b', 'c'] = .ok (.leaf (.literal none ['a', 'b', 'c'] .none 0 false)) [] := by rfl
+
+/-- `title:abc` : field prefix -/
+example : pAst false 4 ['t', 'i', 't', 'l', 'e', ':', 'a', 'b', 'c'] = .ok (.leaf (.literal (some ['t', 'i', 't', 'l', 'e']) ['a', 'b', 'c'] .none 0 false)) [] := by rfl
+
+/-- `title : abc` : spaces around the colon -/
+example : pAst false 4 ['t', 'i', 't', 'l', 'e', ' ', ':', ' ', 'a', 'b', 'c'] = .ok (.leaf (.literal (some ['t', 'i', 't', 'l', 'e']) ['a', 'b', 'c'] .none 0 false)) [] := by rfl
+
+/-- `"a b"~2` : phrase with slop -/
+example : pAst false 4 ['"', 'a', ' ', 'b', '"', '~', '2'] = .ok (.leaf (.literal none ['a', ' ', 'b'] .double 2 false)) [] := by rfl
+
+/-- `'a b'*` : prefix phrase, single quotes -/
+example : pAst false 4 ['\'', 'a', ' ', 'b', '\'', '*'] = .ok (.leaf (.literal none ['a', ' ', 'b'] .single 0 true)) [] := by rfl
+
+/-- `a\:b` : escaped colon inside a word -/
+example : pAst false 4 ['a', '\\', ':', 'b'] = .ok (.leaf (.literal none ['a', ':', 'b'] .none 0 false)) [] := by rfl
+
+/-- `"a\"b"` : escaped quote inside a phrase -/
+example : pAst false 4 ['"', 'a', '\\', '"', 'b', '"'] = .ok (.leaf (.literal none ['a', '"', 'b'] .double 0 false)) [] := by rfl
+
+/-- `f:[a TO b}` : range, inclusive lower and exclusive upper bound -/
+example : pAst false 4 ['f', ':', '[', 'a', ' ', 'T', 'O', ' ', 'b', '}'] = .ok (.leaf (.range (some ['f']) (.incl ['a']) (.excl ['b']))) [] := by rfl
+
+/-- `f:{* TO b]` : open lower bound -/
+example : pAst false 4 ['f', ':', '{', '*', ' ', 'T', 'O', ' ', 'b', ']'] = .ok (.leaf (.range (some ['f']) .unbounded (.incl ['b']))) [] := by rfl
+
+/-- `f:>=-5` : comparison form with a negative number -/
+example : pAst false 4 ['f', ':', '>', '=', '-', '5'] = .ok (.leaf (.range (some ['f']) (.incl ['-', '5']) .unbounded)) [] := by rfl
+
+/-- `f: IN [a "b c" -2]` : set -/
+example : pAst false 4 ['f', ':', ' ', 'I', 'N', ' ', '[', 'a', ' ', '"', 'b', ' ', 'c', '"', ' ', '-', '2', ']'] = .ok (.leaf (.set (some ['f']) [['a'], ['b', ' ', 'c'], ['-', '2']])) [] := by rfl
+
+/-- `f:*` : exists -/
+example : pAst false 4 ['f', ':', '*'] = .ok (.leaf (.exists ['f'])) [] := by rfl
+
+/-- `*` : all documents -/
+example : pAst false 4 ['*'] = .ok (.leaf .all) [] := by rfl
+
+/-- `a^2.50` : boost (stored as decimal digits and scale) -/
+example : pAst false 4 ['a', '^', '2', '.', '5', '0'] = .ok (.boost (.leaf (.literal none ['a'] .none 0 false)) (25 * 65536 + 1)) [] := by rfl
+
+/-- `a^1.0` : a boost of one is dropped -/
+example : pAst false 4 ['a', '^', '1', '.', '0'] = .ok (.leaf (.literal none ['a'] .none 0 false)) [] := by rfl
+
+/-- `a AND b OR c` : AND binds tighter than OR -/
+example : pAst false 5 ['a', ' ', 'A', 'N', 'D', ' ', 'b', ' ', 'O', 'R', ' ', 'c'] = .ok (.clause [(some .should, .clause [(some .must, .leaf (.literal none ['a'] .none 0 false)), (some .must, .leaf (.literal none ['b'] .none 0 false))]), (some .should, .leaf (.literal none ['c'] .none 0 false))]) [] := by rfl
+
+/-- `+a -b c` : occur markers -/
+example : pAst false 5 ['+', 'a', ' ', '-', 'b', ' ', 'c'] = .ok (.clause [(some .must, .leaf (.literal none ['a'] .none 0 false)), (some .mustNot, .leaf (.literal none ['b'] .none 0 false)), (none, .leaf (.literal none ['c'] .none 0 false))]) [] := by rfl
+
+/-- `( a OR  b )` : parentheses and redundant whitespace -/
+example : pAst false 8 ['(', ' ', 'a', ' ', 'O', 'R', ' ', ' ', 'b', ' ', ')'] = .ok (.clause [(some .should, .leaf (.literal none ['a'] .none 0 false)), (some .should, .leaf (.literal none ['b'] .none 0 false))]) [] := by rfl
+
+/-- `((a))` : redundant parentheses -/
+example : pAst false 12 ['(', '(', 'a', ')', ')'] = .ok (.leaf (.literal none ['a'] .none 0 false)) [] := by rfl
+
+/-- `NOT a` : NOT -/
+example : pAst false 5 ['N', 'O', 'T', ' ', 'a'] = .ok (.clause [(some .mustNot, .leaf (.literal none ['a'] .none 0 false))]) [] := by rfl
+
+/-- `f:(a b)` : field scope over a group -/
+example : pAst false 8 ['f', ':', '(', 'a', ' ', 'b', ')'] = .ok (.clause [(none, .leaf (.literal (some ['f']) ['a'] .none 0 false)), (none, .leaf (.literal (some ['f']) ['b'] .none 0 false))]) [] := by rfl
+
+end Chars
 
 end TantivyModel.C16
